@@ -15,6 +15,7 @@ from fractions import Fraction
 import numpy as np
 
 from ..core import REPO, CheckerError
+from ..pycheck import keep_matrix as _keep_matrix
 from ..poly import P, normal
 from .. import pysym, shims, kharness as K, pyxfront
 from ..pysym import real, integer, to_z3, Opaque, Obj
@@ -62,8 +63,8 @@ def harness():
     it.np.isinf = lambda x: False
     it.np.any = lambda x: x
     it.contracts['compmech.sparse.make_symmetric'] = lambda itp, a, kw: Opaque('sym', of=a[0])
-    it.contracts['scipy.sparse.csr_matrix'] = lambda itp, a, kw: a[0]
-    it.contracts['scipy.sparse.coo_matrix'] = lambda itp, a, kw: a[0]
+    it.contracts['scipy.sparse.csr_matrix'] = _keep_matrix
+    it.contracts['scipy.sparse.coo_matrix'] = _keep_matrix
     it.contracts['compmech.conecyl.conecyl.ConeCyl.exclude_dofs_matrix'] = \
         lambda itp, a, kw: {'kuu': Opaque('kuu', of=a[1]), 'kuk': Opaque('kuk', of=a[1], kw=sorted(k for k, v in kw.items() if v))}
     lam_calls = []
